@@ -71,6 +71,7 @@ class PTable(EngineBase):
         world = {"procs": procs, "files": files, "pool": pool,
                  "pid_lo": lo, "pid_hi": lo + npool - 1,
                  "root": rng.random() < 0.8,
+                 "no_cap_sys_resource": rng.random() < 0.3,
                  "listdir_order": rng.choice(["sorted", "reversed", "o7"]),
                  "mono0": 50000.0 + rng.randrange(0, 500)}
         if prop == "C02" and rng.random() < 0.12:
@@ -205,7 +206,8 @@ class PTable(EngineBase):
                 elif kind == "rlimit":
                     op["res"] = rng.randrange(0, 16)
                     op["lim"] = rng.choice([[10, 20], [0, 0], [5, 5],
-                                            [1024, 4096], [1, 2, 3]])
+                                            [1024, 4096], [1, 2, 3],
+                                            [5000, 9000], [100, 5000]])
                 else:
                     op["cpus"] = rng.choice([[0], [], [0, 0], [0, 1], [1],
                                              [99], [0, 99]])
